@@ -324,7 +324,7 @@ def models_parser_module(g):
     return g.parser_module
 
 
-def r044(report, lm):
+def r044(report, lm, maxrun=3):
     rule = report.rule('R04.4', 'line-terminator evidence is transparent to '
                        'comments (all marker runs up to length 3)',
                        floor=15)
@@ -337,7 +337,7 @@ def r044(report, lm):
     }
     failing = {}
     total = 0
-    for n in range(0, 4):
+    for n in range(0, maxrun + 1):
         for run in itertools.product(sorted(kinds), repeat=n):
             # a line comment is always followed by a line terminator (or
             # the end of input): skip impossible runs
@@ -401,7 +401,7 @@ def r045(report, lm):
     return rule
 
 
-def rules(report, index):
+def rules(report, index, tier='quick'):
     """the ASI rules (also part of C03: where semicolons are supplied is
     part of which texts the parser accepts and of the tree it builds)"""
     M = models(index)
@@ -410,7 +410,7 @@ def rules(report, index):
     r041(report, g, A)
     r042(report, lm, pm)
     r043(report, g, lm)
-    r044(report, lm)
+    r044(report, lm, maxrun=5 if tier == 'thorough' else 3)
     r045(report, lm)
 
 
@@ -422,7 +422,7 @@ def run(report, index, tier):
         'functions over the complete token-type domain, a finite '
         'exploration of the token-tracking transition function for comment '
         'transparency, and the t_ignore character set.')
-    rules(report, index)
+    rules(report, index, tier)
     report.extra['exhaustive'] = True
     report.not_decided.append(
         'the second sentence of C04 (any subset of removable semicolons '
